@@ -19,9 +19,13 @@ EXTENDS Naturals, Sequences, FiniteSets, TLC
 
 \* ---- alphabet ------------------------------------------------------------
 SchemeTokens == {"sdc.x", "SDC.X", "Sdc.X", "sdc.y"}
-AuthTokens == {"h", "H", "g", "None"}
+\* authorities: host only (two spellings of h, another host g), host with port, host with userinfo - port and userinfo
+\* are part of the authority: h, h:1, h:2, u@h, v@h are five different authorities (only the case of the host folds)
+BasicAuthTokens == {"h", "H", "g", "None"}
+AuthTokens == BasicAuthTokens \cup {"h:1", "H:1", "h:2", "u@h", "v@h"}
 LowerOf == ("sdc.x" :> "sdc.x") @@ ("SDC.X" :> "sdc.x") @@ ("Sdc.X" :> "sdc.x") @@ ("sdc.y" :> "sdc.y")
            @@ ("h" :> "h") @@ ("H" :> "h") @@ ("g" :> "g") @@ ("None" :> "None")
+           @@ ("h:1" :> "h:1") @@ ("H:1" :> "h:1") @@ ("h:2" :> "h:2") @@ ("u@h" :> "u@h") @@ ("v@h" :> "v@h")
 
 \* segment tokens: plain "a", upper case "A", their percent-encoded spellings "%61" and "%41", the encoded
 \* slash in both hex spellings, the empty segment, a segment that contains an encoded slash, a doubly
